@@ -1,6 +1,6 @@
 SPECIFICATION Spec
 CONSTANTS
   ManyLimit = 12
-  Stride = 4
+  Stride = 6
 INVARIANTS Emit
 CHECK_DEADLOCK FALSE
